@@ -8,6 +8,7 @@ import (
 	"crypto/ecdsa"
 	"fmt"
 	"math/big"
+	"runtime/debug"
 	"sort"
 	"strconv"
 	"strings"
@@ -267,6 +268,23 @@ func (w *world) exec(line string) (out string, skip bool) {
 		if r := recover(); r != nil {
 			msg := fmt.Sprint(r)
 			w.lastPanic = msg
+			// where in /repo: the first frames inside go-youchain
+			var where []string
+			for _, ln := range strings.Split(string(debug.Stack()), "\n") {
+				ln = strings.TrimSpace(ln)
+				if strings.Contains(ln, ".go:") && !strings.Contains(ln, "/verif/") && (strings.Contains(ln, "/staking/") || strings.Contains(ln, "/core/state/")) {
+					if k := strings.Index(ln, " +0x"); k > 0 {
+						ln = ln[:k]
+					}
+					where = append(where, ln[strings.LastIndex(ln[:strings.LastIndex(ln, "/")], "/")+1:])
+					if len(where) == 3 {
+						break
+					}
+				}
+			}
+			if len(where) > 0 {
+				w.lastPanic += " at " + strings.Join(where, " <- ")
+			}
 			out = "crash"
 			w.dead = true
 		}
@@ -490,6 +508,15 @@ func (w *world) exec(line string) (out string, skip bool) {
 			}
 			if v.IsOnline() {
 				online = true
+				if v.Role != params.RoleHouse && v.Stake.Sign() <= 0 {
+					// An ONLINE chamber validator with zero stake is not a reachable state: every shipped table has
+					// MinStakes[chancellor/senator] >= 500, teCreate creates offline, going online needs
+					// stake >= MinStakes, and withdrawals / delegation withdrawals / penalties that take the stake
+					// below MinStakes force the validator offline. (The harness can build it with minStake = 0
+					// and a direct CreateValidator(status = online).) With it, distributeRewards divides the role's
+					// pool by an online stake of zero once the other members are slashed (endblock.go:292).
+					return "", true
+				}
 				if v.Role != params.RoleHouse {
 					if chamberOn[v.Role] == nil {
 						chamberOn[v.Role] = new(big.Int)
